@@ -16,7 +16,8 @@ BINOPS = ["+", "-", "*", "/", "%", "==", "!=", "<", "<=", ">", ">="]
 # pairs of distinct integers that collapse under a lossy representation (double, 32-bit): always part of the comparison families
 NEAR_PAIRS = [(9007199254740992, 9007199254740993), (9007199254740993, 9007199254740992), (9223372036854775807, 9223372036854775806),
               (9223372036854775000, 9223372036854775807), (-9007199254740993, -9007199254740992), (4294967296, 0), (4294967297, 1),
-              (2147483648, -2147483648), (-9223372036854775807, 9223372036854775807), (6000000000000000000, -6000000000000000000)]
+              (2147483648, -2147483648), (-9223372036854775807, 9223372036854775807), (6000000000000000000, -6000000000000000000),
+              (-9223372036854775808, -1), (-9223372036854775808, 1), (9223372036854775807, -1)]
 
 
 def lit(v):
@@ -203,6 +204,18 @@ def scoping_program(rng):
             "    (println (+ (bump 1) (bump 10)))\n    (println h)\n    (println (+ g (fact %d)))\n    return %d\n}\nshadow main { assert (== 1 1) }\n"
             % (rng.randint(1, 50), x0, x1, x2, rng.randint(1, 12), rng.randint(0, 300)))
 
+
+# F-C02-5: `let mut b = a` aliases the array on both engines; the definition (Coq E_ArrayPush, value semantics) leaves a unchanged
+ALIAS_WITNESS = """fn main() -> int {
+    let a: array<int> = [1, 2]
+    let mut b: array<int> = a
+    set b (array_push b 3)
+    (println (array_length a))
+    (println (array_length b))
+    return 0
+}
+shadow main { assert (== 1 1) }
+"""
 
 ARG_ORDER_WITNESS = """fn p(x: int) -> int {
     (println x)
